@@ -403,7 +403,8 @@ size_t indexOf(const VariablePtr &variable, const ComponentConstPtr &component)
 bool areEquivalentVariables(const VariablePtr &variable1,
                             const VariablePtr &variable2)
 {
-    return (variable1 == variable2) || variable1->hasEquivalentVariable(variable2, true);
+    return (variable1 == variable2)
+           || ((variable1 != nullptr) && variable1->hasEquivalentVariable(variable2, true));
 }
 
 bool isEntityChildOf(const ParentedEntityPtr &entity1, const ParentedEntityPtr &entity2)
